@@ -235,6 +235,20 @@ def oracle_string_roundtrip(ctx, loc, case=None):
             and type(back) is type(loc) and back == loc)
     if not same:
         ctx.violate("string-roundtrip", _facts(None, loc, back=_s(back)), case or _s(loc))
+    if len(loc.parts) > 1:
+        # the other operator GenBank knows for several parts: order(...) instead of join(...)
+        ordered = CompoundLocation(list(loc.parts), operator="order")
+        ctx.count("op:roundtrip_string_order_operator")
+        try:
+            back = L.location_from_string(str(ordered))
+        except Exception as err:  # pylint: disable=broad-except
+            ctx.violate("string-roundtrip-crash", _facts(None, ordered, exception=type(err).__name__, operator="order"),
+                        case or str(ordered))
+            return
+        if not (isinstance(back, CompoundLocation) and back.operator == "order" and back == ordered
+                and str(back) == str(ordered)):
+            ctx.violate("string-roundtrip", _facts(None, loc, back=str(back), given=str(ordered), operator="order"),
+                        case or str(ordered))
 
 
 def oracle_bridges(ctx, loc, length, case=None):
